@@ -538,188 +538,46 @@ Proof.
   rewrite <- E. intros [q [I ->]]. right. exists q. split; [apply dir_cands_sub; exact I | reflexivity].
 Qed.
 
-(* ================= histories ================= *)
-Section Hist.
+(* ================= the monitor at given functions / default / view ================= *)
+Lemma filter_filter {A} (f g : A -> bool) l :
+  filter f (filter g l) = filter (fun x => g x && f x) l.
+Proof.
+  induction l as [|x r IH]; simpl; [reflexivity|].
+  destruct (g x); simpl; [destruct (f x); rewrite IH; reflexivity | exact IH].
+Qed.
+
+Section At.
   Variable F : Type.
   Variable interp : F -> rfn.
-  Variable pinterp : F -> rule.
 
-  Lemma run_from_app h1 : forall (s : st F) h2,
-    run_from interp pinterp s (h1 ++ h2) =
-    (fst (run_from interp pinterp (fst (run_from interp pinterp s h1)) h2),
-     snd (run_from interp pinterp s h1) ++ snd (run_from interp pinterp (fst (run_from interp pinterp s h1)) h2)).
+  Lemma default_applies_at_spec (tab : alist F) (d : dmode F) r p t :
+    default_applies_at tab d r p = Some t ->
+    exists g m rp, r = [t; g; m] /\ rule_param p = Some rp /\ d = DApp
+                   /\ aget t tab = None /\ t <> empty.
   Proof.
-    induction h1 as [|o r IH]; intros s h2; simpl.
-    - destruct (run_from interp pinterp s h2); reflexivity.
-    - rewrite IH. destruct (run_from interp pinterp (next s o) r) as [s2 bs]. simpl.
-      destruct (run_from interp pinterp s2 h2) as [s3 bs3]. reflexivity.
-  Qed.
-
-  Lemma final_snoc h o : final interp pinterp (h ++ [o]) = next (final interp pinterp h) o.
-  Proof.
-    unfold final. rewrite run_from_app. simpl.
-    destruct (run_from interp pinterp init h) as [s bs]. reflexivity.
-  Qed.
-
-  Lemma run_snoc h o : run interp pinterp (h ++ [o]) = run interp pinterp h ++ [obs_at interp pinterp h o].
-  Proof.
-    unfold run, obs_at, final. rewrite run_from_app. simpl.
-    destruct (run_from interp pinterp init h) as [s bs]. reflexivity.
-  Qed.
-
-  Lemma run_cons_from s o r :
-    snd (run_from interp pinterp s (o :: r)) =
-    out (reg_of interp s) (dflt_of interp s) (rules_of pinterp s) (pdflt_of pinterp s) (s_view s) o
-    :: snd (run_from interp pinterp (next s o) r).
-  Proof. simpl. destruct (run_from interp pinterp (next s o) r). reflexivity. Qed.
-
-  (* the state is the three history functions *)
-  Lemma final_view h : s_view (final interp pinterp h) = last_view h.
-  Proof.
-    induction h as [|o r IH] using rev_ind; [reflexivity|].
-    rewrite final_snoc. unfold last_view. rewrite fold_left_app. simpl.
-    fold (last_view r). rewrite <- IH.
-    destruct o as [ty [f|]|d|v|ty p|ty p|rt p|rt p|f|f|ty|ty|cs sc]; reflexivity.
-  Qed.
-
-  Lemma final_dflt h : s_dflt (final interp pinterp h) = dflt_at h.
-  Proof.
-    induction h as [|o r IH] using rev_ind; [reflexivity|].
-    rewrite final_snoc. unfold dflt_at. rewrite fold_left_app. simpl.
-    fold (dflt_at r). rewrite <- IH.
-    destruct o as [ty [f|]|d|v|ty p|ty p|rt p|rt p|f|f|ty|ty|cs sc]; reflexivity.
-  Qed.
-
-  Lemma final_fns h ty : aget ty (s_fns (final interp pinterp h)) = reg_at h ty.
-  Proof.
-    induction h as [|o r IH] using rev_ind; [reflexivity|].
-    rewrite final_snoc. unfold reg_at. rewrite fold_left_app. simpl.
-    fold (reg_at r ty). rewrite <- IH.
-    destruct o as [t [f|]|d|v|t p|t p|rt p|rt p|f|f|t|t|cs sc]; try reflexivity; simpl.
-    - destruct (Z.eqb_spec t ty) as [->|N].
-      + apply aget_aset_same.
-      + apply aget_aset_other. intro E. apply N. symmetry. exact E.
-    - destruct (Z.eqb_spec t ty) as [->|N].
-      + apply aget_adel_same.
-      + apply aget_adel_other. intro E. apply N. symmetry. exact E.
-  Qed.
-
-  Lemma final_reg h ty : reg_of interp (final interp pinterp h) ty = hreg interp h ty.
-  Proof. unfold reg_of, hreg. rewrite final_fns. reflexivity. Qed.
-
-  Lemma final_dflt_of h : dflt_of interp (final interp pinterp h) = hdflt interp h.
-  Proof. unfold dflt_of, hdflt. rewrite final_dflt, final_view. reflexivity. Qed.
-
-  Lemma final_rules h ty : rules_of pinterp (final interp pinterp h) ty = hrules pinterp h ty.
-  Proof. unfold rules_of, hrules. rewrite final_fns. reflexivity. Qed.
-
-  Lemma final_pdflt_of h : pdflt_of pinterp (final interp pinterp h) = hpdflt pinterp h.
-  Proof. unfold pdflt_of, hpdflt. rewrite final_dflt, final_view. reflexivity. Qed.
-
-  (* [out] looks at the registered functions pointwise only *)
-  Lemma route_ext reg reg' dflt p ty :
-    (forall t, reg t = reg' t) -> route reg dflt p ty = route reg' dflt p ty.
-  Proof. intro E. destruct p; simpl; rewrite ?E; reflexivity. Qed.
-
-  Lemma route_pid_ext reg reg' dflt v ty p :
-    (forall t, reg t = reg' t) -> route_pid reg dflt v ty p = route_pid reg' dflt v ty p.
-  Proof. intro E. unfold route_pid. rewrite (route_ext reg reg' dflt p ty E). reflexivity. Qed.
-
-  Lemma call_ext reg reg' dflt v req r p :
-    (forall t, reg t = reg' t) -> call reg dflt v req r p = call reg' dflt v req r p.
-  Proof.
-    intro E. destruct r as [|t [|g [|m [|x r]]]]; simpl; try reflexivity.
-    rewrite (route_pid_ext reg reg' dflt v t p E). reflexivity.
-  Qed.
-
-  Lemma out1_ext reg reg' dflt v (o : op F) :
-    (forall t, reg t = reg' t) -> out1 reg dflt v o = out1 reg' dflt v o.
-  Proof.
-    intro E. destruct o as [ty f|d|v'|ty p|ty p|rt p|rt p|f|f|ty|ty|cs sc]; simpl; try reflexivity.
-    - rewrite (route_ext reg reg' dflt p ty E). reflexivity.
-    - rewrite (route_pid_ext reg reg' dflt v ty p E). reflexivity.
-    - rewrite (call_ext reg reg' dflt v true rt p E). reflexivity.
-    - rewrite (call_ext reg reg' dflt v false rt p E). reflexivity.
-  Qed.
-
-  Lemma out_ext reg reg' dflt rules rules' pdflt v (o : op F) :
-    (forall t, reg t = reg' t) -> (forall t, rules t = rules' t) ->
-    out reg dflt rules pdflt v o = out reg' dflt rules' pdflt v o.
-  Proof.
-    intros E E2.
-    destruct o as [ty f|d|v'|ty p|ty p|rt p|rt p|f|f|ty|ty|cs sc];
-      try (apply (out1_ext reg reg' dflt v _ E)).
-    cbn [out]. f_equal. apply map_ext. intro c.
-    rewrite (out1_ext reg reg' dflt v _ E), (call_trace_ext rules rules' pdflt c E2). reflexivity.
-  Qed.
-
-  (* C07_view_updates *)
-  Lemma obs_at_history h o :
-    obs_at interp pinterp h o =
-    out (hreg interp h) (hdflt interp h) (hrules pinterp h) (hpdflt pinterp h) (last_view h) o.
-  Proof.
-    unfold obs_at, step. simpl. rewrite final_dflt_of, final_pdflt_of, final_view.
-    apply out_ext; [apply final_reg | apply final_rules].
-  Qed.
-
-  (* the schedule of calls in flight together does not matter *)
-  Lemma out_schedule_irrelevant reg dflt rules pdflt v cs s1 s2 :
-    out reg dflt rules pdflt v (@OCalls F cs s1) = out reg dflt rules pdflt v (@OCalls F cs s2).
-  Proof. reflexivity. Qed.
-
-  Lemma last_view_update (h : list (op F)) v : last_view (h ++ [OUpdate v]) = v.
-  Proof. unfold last_view. rewrite fold_left_app. reflexivity. Qed.
-
-  Lemma last_view_frame (h : list (op F)) o :
-    (forall v, o <> OUpdate v) -> last_view (h ++ [o]) = last_view h.
-  Proof.
-    intro N. unfold last_view. rewrite fold_left_app. simpl.
-    destruct o; try reflexivity. exfalso. eapply N. reflexivity.
-  Qed.
-
-  (* decision operations change nothing *)
-  Lemma decision_frame (s : st F) (o : op F) : is_decision o = true -> next s o = s.
-  Proof. destruct o; simpl; try discriminate; reflexivity. Qed.
-
-  (* ---- the proven model satisfies the monitored property ---- *)
-  Lemma filter_filter {A} (f g : A -> bool) l :
-    filter f (filter g l) = filter (fun x => g x && f x) l.
-  Proof.
-    induction l as [|x r IH]; simpl; [reflexivity|].
-    destruct (g x); simpl; [destruct (f x); rewrite IH; reflexivity | exact IH].
-  Qed.
-
-  Lemma default_applies_spec (h : list (op F)) r p t :
-    default_applies h r p = Some t ->
-    exists g m rp, r = [t; g; m] /\ rule_param p = Some rp /\ dflt_at h = DApp
-                   /\ reg_at h t = None /\ t <> empty.
-  Proof.
-    unfold default_applies.
+    unfold default_applies_at.
     destruct r as [|t0 [|g [|m [|x r]]]]; try discriminate;
       destruct (rule_param p) as [rp|]; try discriminate.
-    destruct (dflt_at h) eqn:D; try discriminate.
+    destruct d; try discriminate.
     destruct (Z.eqb_spec t0 empty) as [E|N]; [discriminate|].
-    destruct (reg_at h t0) eqn:R; [discriminate|]. intro H. inv H.
+    destruct (aget t0 tab) eqn:R; [discriminate|]. intro H. inv H.
     exists g, m, rp. tauto.
   Qed.
 
-  Lemma call_monitor h req r p evs :
-    admissible_b (call (hreg interp h) (hdflt interp h) (last_view h) req r p) evs = true ->
-    admissible_b (call_spec (hreg interp h) (hdflt interp h) (last_view h) req r p) evs
-    && match default_applies h r p with
-       | Some t => default_ok_b (last_view h) t evs
+  Lemma call_monitor (tab : alist F) d v req r p evs :
+    admissible_b (call (reg_in interp tab) (dflt_in interp d v) v req r p) evs = true ->
+    admissible_b (call_spec (reg_in interp tab) (dflt_in interp d v) v req r p) evs
+    && match default_applies_at tab d r p with
+       | Some t => default_ok_b v t evs
        | None => true
        end = true.
   Proof.
     intro A. apply admissible_b_spec in A. apply andb_true_iff. split.
     - apply admissible_b_spec. apply call_sound. exact A.
-    - destruct (default_applies h r p) as [t|] eqn:D; [|reflexivity].
-      apply default_applies_spec in D. destruct D as [g [m [rp [-> [P [Dm [R _]]]]]]].
-      assert (Hd : hdflt interp h = Some (app_default (last_view h))).
-      { unfold hdflt. rewrite Dm. reflexivity. }
-      rewrite Hd in A.
-      eapply default_ok_sound; [|exact P|exact A].
-      unfold hreg. rewrite R. reflexivity.
+    - destruct (default_applies_at tab d r p) as [t|] eqn:D; [|reflexivity].
+      apply default_applies_at_spec in D. destruct D as [g [m [rp [-> [P [-> [R _]]]]]]].
+      simpl in A. eapply default_ok_sound; [|exact P|exact A].
+      unfold reg_in. rewrite R. reflexivity.
   Qed.
 
   Lemma front_monitor v f m evs :
@@ -728,21 +586,21 @@ Section Hist.
     intro A. apply admissible_b_spec. apply front_sound. apply admissible_b_spec. exact A.
   Qed.
 
-  Lemma monitor_step1 h o b :
-    admits1 (out1 (hreg interp h) (hdflt interp h) (last_view h) o) b = true ->
-    op_ok1 interp h o b = true.
+  Lemma monitor_at (tab : alist F) d v o b :
+    admits1 (out1 (reg_in interp tab) (dflt_in interp d v) v o) b = true ->
+    op_ok_at interp tab d v o b = true.
   Proof.
-    destruct o as [ty f|d|v'|ty p|ty p|rt p|rt p|f|f|ty|ty|cs sc]; simpl;
-      destruct b as [|n|po|evs|l| |l]; simpl; try discriminate; try (intro; reflexivity).
+    destruct o as [ty f|d'|v'|ty p|ty p|rt p|rt p|f|f|ty|ty|cs sc|a]; simpl;
+      destruct b as [|n|po|evs|l| | |l]; simpl; try discriminate; try (intro; reflexivity).
     - (* Route *) intro E. apply Z.eqb_eq in E. subst. apply Z.eqb_refl.
     - (* RoutePID *)
       rewrite route_pid_known.
-      destruct (named_by_rule (hreg interp h) (hdflt interp h) ty p) as [n|].
-      + destruct (known (last_view h) n) eqn:K.
+      destruct (named_by_rule (reg_in interp tab) (dflt_in interp d v) ty p) as [n|].
+      + destruct (known v n) eqn:K.
         * destruct po as [q|].
           -- intro M. apply pmem_In in M. simpl. apply pmem_In. apply dir_cands_sub. exact M.
           -- pose proof (known_cands_nonempty _ _ K) as NE.
-             destruct (dir_cands (last_view h) n); [contradiction | discriminate].
+             destruct (dir_cands v n); [contradiction | discriminate].
         * destruct po as [q|]; [discriminate | reflexivity].
       + destruct po as [q|]; [discriminate | reflexivity].
     - (* Request *) apply call_monitor.
@@ -754,46 +612,184 @@ Section Hist.
     - (* List *) intro H. apply zlist_eqb_spec in H. apply zlist_eqb_spec. symmetry. exact H.
   Qed.
 
-  Lemma monitor_calls h : forall cs l,
+  (* calls in flight together, given what the scheduler run leaves *)
+  Lemma calls_list d v : forall cs (pool : list (thread F)) (ent : list (alist F)) l,
+    Forall2 (tinv F) (map call_key cs) pool ->
     all2b admits_call
-      (map (fun c => (out1 (hreg interp h) (hdflt interp h) (last_view h) (@op_of_call F c),
-                      call_trace (hrules pinterp h) (hpdflt pinterp h) c)) cs) l = true ->
-    all2b (call_ok_b interp h) cs l = true.
+      (map (fun x => (out1 (reg_in interp (snd (snd x))) (dflt_in interp d v) v
+                           (@op_of_call F (fst x)),
+                      seen_of (fst (snd x))))
+           (combine cs (combine pool ent))) l = true ->
+    all2b (call_ok_at interp d v) (combine cs ent) l = true.
   Proof.
-    induction cs as [|c r IH]; intros [|y l]; cbn [map all2b]; try discriminate; try reflexivity.
-    rewrite !andb_true_iff. intros [AC R]. split; [|apply IH; exact R].
-    unfold admits_call in AC. cbn [fst snd] in AC. apply andb_true_iff in AC. destruct AC as [A T].
-    unfold call_ok_b. apply andb_true_iff. split.
-    - apply monitor_step1. exact A.
-    - destruct (call_trace (hrules pinterp h) (hpdflt pinterp h) c) as [t|] eqn:CT; [|discriminate].
-      apply seen_list_eqb_spec in T. subst t.
-      apply call_sees_own_b_spec. eapply call_trace_sees_own. exact CT.
+    induction cs as [|c r IH]; intros pool ent l H A.
+    - simpl in *. exact A.
+    - inversion H as [|k t ks pool' Tk Hr]; subst. destruct ent as [|e ent'].
+      + simpl in *. exact A.
+      + cbn [combine map all2b] in *. destruct l as [|y l']; [discriminate|].
+        apply andb_true_iff in A. destruct A as [AC R]. apply andb_true_iff. split.
+        * unfold admits_call in AC. cbn [fst snd] in AC. apply andb_true_iff in AC.
+          destruct AC as [A1 T]. unfold call_ok_at. cbn [fst snd]. apply andb_true_iff. split.
+          -- apply monitor_at. exact A1.
+          -- destruct t as [k0|ty rp pc stk tr|n tr]; simpl in T; try discriminate.
+             apply seen_list_eqb_spec in T. subst tr.
+             apply call_sees_own_b_spec. exact Tk.
+        * eapply IH; eassumption.
+  Qed.
+End At.
+
+(* ================= histories ================= *)
+Section Hist.
+  Variable F : Type.
+  Variable interp : F -> rfn.
+  Variable pinterp : F -> rule F.
+
+  Lemma run_from_app h1 : forall (s : st F) h2,
+    run_from interp pinterp s (h1 ++ h2) =
+    (fst (run_from interp pinterp (fst (run_from interp pinterp s h1)) h2),
+     snd (run_from interp pinterp s h1) ++ snd (run_from interp pinterp (fst (run_from interp pinterp s h1)) h2)).
+  Proof.
+    induction h1 as [|o r IH]; intros s h2; simpl.
+    - destruct (run_from interp pinterp s h2); reflexivity.
+    - rewrite IH. destruct (run_from interp pinterp (next pinterp s o) r) as [s2 bs]. simpl.
+      destruct (run_from interp pinterp s2 h2) as [s3 bs3]. reflexivity.
+  Qed.
+
+  Lemma final_snoc h o : final interp pinterp (h ++ [o]) = next pinterp (final interp pinterp h) o.
+  Proof.
+    unfold final. rewrite run_from_app. simpl.
+    destruct (run_from interp pinterp init h) as [s bs]. reflexivity.
+  Qed.
+
+  Lemma run_snoc h o : run interp pinterp (h ++ [o]) = run interp pinterp h ++ [obs_at interp pinterp h o].
+  Proof.
+    unfold run, obs_at, final. rewrite run_from_app. simpl.
+    destruct (run_from interp pinterp init h) as [s bs]. reflexivity.
+  Qed.
+
+  (* the state is the history functions *)
+  Lemma final_view h : s_view (final interp pinterp h) = last_view h.
+  Proof.
+    induction h as [|o r IH] using rev_ind; [reflexivity|].
+    rewrite final_snoc. unfold last_view. rewrite fold_left_app. simpl.
+    fold (last_view r). rewrite <- IH. destruct o; reflexivity.
+  Qed.
+
+  Lemma final_dflt h : s_dflt (final interp pinterp h) = dflt_at h.
+  Proof.
+    induction h as [|o r IH] using rev_ind; [reflexivity|].
+    rewrite final_snoc. unfold dflt_at. rewrite fold_left_app. simpl.
+    fold (dflt_at r). rewrite <- IH. destruct o; reflexivity.
+  Qed.
+
+  Lemma final_self h : s_self (final interp pinterp h) = self_at h.
+  Proof.
+    induction h as [|o r IH] using rev_ind; [reflexivity|].
+    rewrite final_snoc. unfold self_at. rewrite fold_left_app. simpl.
+    fold (self_at r). rewrite <- IH. destruct o; reflexivity.
+  Qed.
+
+  (* the registered functions after one more operation *)
+  Lemma fns_at_snoc h o :
+    fns_at interp pinterp (h ++ [o])
+    = fns_after pinterp (fns_at interp pinterp h) (dflt_at h) (last_view h) o.
+  Proof. unfold fns_at. rewrite final_snoc. simpl. rewrite final_dflt, final_view. reflexivity. Qed.
+
+  Lemma fns_at_reg h ty f :
+    fns_at interp pinterp (h ++ [OReg ty f]) = treg ty f (fns_at interp pinterp h).
+  Proof. rewrite fns_at_snoc. reflexivity. Qed.
+
+  (* C07_view_updates *)
+  Lemma obs_at_history h o :
+    obs_at interp pinterp h o
+    = out interp pinterp (fns_at interp pinterp h) (dflt_at h) (last_view h) o.
+  Proof. unfold obs_at, step. simpl. rewrite final_dflt, final_view. reflexivity. Qed.
+
+  Lemma last_view_update (h : list (op F)) v : last_view (h ++ [OUpdate v]) = v.
+  Proof. unfold last_view. rewrite fold_left_app. reflexivity. Qed.
+
+  Lemma last_view_frame (h : list (op F)) o :
+    (forall v, o <> OUpdate v) -> last_view (h ++ [o]) = last_view h.
+  Proof.
+    intro N. unfold last_view. rewrite fold_left_app. simpl.
+    destruct o; try reflexivity. exfalso. eapply N. reflexivity.
+  Qed.
+
+  (* which node asks does not matter: no decision reads the node's own address *)
+  Lemma self_irrelevant h a o :
+    obs_at interp pinterp (h ++ [OSelf a]) o = obs_at interp pinterp h o.
+  Proof.
+    rewrite !obs_at_history, fns_at_snoc. unfold last_view, dflt_at.
+    rewrite !fold_left_app. reflexivity.
+  Qed.
+
+  (* decision operations change neither the view, nor the default, nor the own address ... *)
+  Lemma decision_frame (s : st F) (o : op F) :
+    is_decision o = true ->
+    s_view (next pinterp s o) = s_view s /\ s_dflt (next pinterp s o) = s_dflt s
+    /\ s_self (next pinterp s o) = s_self s.
+  Proof. destruct o; simpl; try discriminate; auto. Qed.
+
+  (* ... and the registered functions only through a rule that calls Register *)
+  Lemma decision_frame_table (s : st F) (o : op F) :
+    is_decision o = true -> (forall cs sc, o <> OCalls cs sc) ->
+    rules_regfree F pinterp (pdflt_in pinterp (s_dflt s) (s_view s)) (s_fns s) ->
+    s_fns (next pinterp s o) = s_fns s.
+  Proof.
+    intros D N R. unfold next. cbn [s_fns]. unfold fns_after.
+    destruct o as [ty f|d'|v'|ty p|ty p|rt p|rt p|f|f|ty|ty|cs sc|a]; try discriminate;
+      try reflexivity; try (exfalso; eapply N; reflexivity);
+      match goal with
+      | |- context [op_key ?o] => destruct (op_key o) as [[ty0 p0]|]; [|reflexivity]
+      end;
+      match goal with
+      | |- context [eval ?a ?b ?c ?d ?e ?f ?g ?h] =>
+          destruct (eval a b c d e f g h) as [[[n t] tab1]|] eqn:E; [|reflexivity]
+      end;
+      eapply eval_keeps; eassumption.
+  Qed.
+
+  (* ---- the proven model satisfies the monitored property ---- *)
+  Lemma sim_nil dflt (tab : alist F) sched : sim F pinterp dflt tab [] sched = Some (tab, [], []).
+  Proof. unfold sim. destruct sched; reflexivity. Qed.
+
+  Lemma monitor_calls tab d v cs sched l :
+    all2b admits_call (calls_out interp pinterp tab d v cs sched) l = true ->
+    calls_ok_b interp pinterp tab d v cs sched l = true.
+  Proof.
+    unfold calls_out, calls_ok_b.
+    destruct (sim F pinterp (pdflt_in pinterp d v) tab (map call_key cs) sched)
+      as [[[tab' pool] ent]|] eqn:S.
+    - apply calls_list. eapply sim_inv. exact S.
+    - destruct cs as [|c r]; [simpl in S; rewrite sim_nil in S; discriminate|].
+      destruct l as [|y l']; simpl; [discriminate|].
+      unfold admits_call. simpl. rewrite andb_false_r. discriminate.
   Qed.
 
   Lemma monitor_step h o b :
-    admits (obs_at interp pinterp h o) b = true -> op_ok_b interp h o b = true.
+    admits (obs_at interp pinterp h o) b = true -> op_ok_b interp pinterp h o b = true.
   Proof.
     rewrite obs_at_history.
-    destruct o as [ty f|d|v'|ty p|ty p|rt p|rt p|f|f|ty|ty|cs sc];
-      try (destruct b as [|n|po|evs|l| |l]; try discriminate; apply monitor_step1).
-    destruct b as [|n|po|evs|l| |l]; try discriminate. apply monitor_calls.
+    destruct o as [ty f|d'|v'|ty p|ty p|rt p|rt p|f|f|ty|ty|cs sc|a];
+      try (destruct b as [|n|po|evs|l| | |l]; try discriminate; apply monitor_at).
+    destruct b as [|n|po|evs|l| | |l]; try discriminate. apply monitor_calls.
   Qed.
 
   Lemma monitor_all_from : forall ops hist bs,
     admits_all (snd (run_from interp pinterp (final interp pinterp hist) ops)) bs = true ->
-    monitor_from interp hist ops bs = true.
+    monitor_from interp pinterp hist ops bs = true.
   Proof.
     induction ops as [|o r IH]; intros hist bs; simpl.
     - destruct bs; [reflexivity | discriminate].
-    - destruct (run_from interp pinterp (next (final interp pinterp hist) o) r) as [s2 ms] eqn:E. simpl.
-      destruct bs as [|b br]; [discriminate|]. rewrite andb_true_iff. intros [A R].
+    - destruct (run_from interp pinterp (next pinterp (final interp pinterp hist) o) r) as [s2 ms] eqn:E.
+      simpl. destruct bs as [|b br]; [discriminate|]. rewrite andb_true_iff. intros [A R].
       apply andb_true_iff. split.
       + apply monitor_step. exact A.
       + apply IH. rewrite final_snoc, E. exact R.
   Qed.
 
   Lemma monitor_all ops bs :
-    admits_all (run interp pinterp ops) bs = true -> monitor_from interp [] ops bs = true.
+    admits_all (run interp pinterp ops) bs = true -> monitor_from interp pinterp [] ops bs = true.
   Proof. apply (monitor_all_from ops []). Qed.
 End Hist.
 
